@@ -232,7 +232,7 @@ class Body:
                 st.append(s)
         return seen
 
-    def enum_paths(self, start, avoid=(), limit=4000):
+    def enum_paths(self, start, avoid=(), limit=4000, target=None, consistent=None):
         """Acyclic paths from block `start` to a return block that avoid `avoid`, as lists of
         (switch_bb, label) decisions. Boolean/integer locals assigned constants along the path are
         tracked so that a later switch on such a local follows only the consistent edge."""
@@ -252,6 +252,11 @@ class Body:
             if len(out) >= limit:
                 return
             if bb in avoid or bb in seen:
+                return
+            if target is not None and bb == target:
+                out.append(list(facts))
+                return
+            if target is not None and not self.can_reach(bb, target):
                 return
             seen = seen | {bb}
             env = dict(env)
@@ -276,6 +281,8 @@ class Body:
                     lab = known if known in vals else "otherwise"
                     edges = [(l, x) for (l, x) in edges if l == lab]
                 for (lab, tgt) in edges:
+                    if consistent is not None and not consistent(facts, bb, lab):
+                        continue
                     walk(tgt, env, facts + [(bb, lab)], seen)
                 return
             if t[0] == "call":
